@@ -11,7 +11,43 @@ import os, sys, json, time, random, shutil, hashlib, concurrent.futures
 from . import tlc, evidence, findings
 
 
-def run_case(B, target, journal, use_batch, shape, workdir=None):
+def run_multi(seed):
+    """large entries under leader changes: random + directed (re-election) schedules on three nodes whose commands are all
+    larger than one message; what goes out in pieces must be the sender's current log entry, and all replicas must end up
+    with equal states"""
+    from . import sched, engine_core
+    cfg = {'voters': ['a', 'b', 'c'], 'batch': 60}
+    w = dict(engine_core.W_BASE)
+    w.update({'submit': 6, 'brk': 0.4})
+    extra = {'maxcmd': 30, 'sizes': [150, 200, 260], 'phases': engine_core.REELECT['phases'] + [[0, {}, [['quiet', 24, 2]]]]}
+    tr = sched.run_random(cfg, seed, 0, weights=w, maxcmd=30, extra=extra)
+    bad = [o for st in tr[1:] for o in st.get('obs', []) if o.get('k') == 'pieces' and not o.get('ok')]
+    npieces = sum(1 for st in tr[1:] for o in st.get('obs', []) if o.get('k') == 'pieces')
+    nexc = sum(1 for st in tr[1:] for o in st.get('obs', []) if o.get('k') == 'exc')
+    # final states (after the quiet period): equal applied prefixes
+    last = {}
+    for st in tr:
+        for n, s_ in (st.get('upd') or {}).items():
+            last[n] = s_
+    if 'full' in tr[0]:
+        for n, s_ in tr[0]['full']['nodes'].items():
+            last.setdefault(n, s_)
+    hists = {n: [tuple(h[:2]) for h in s_.get('hist', [])] for n, s_ in last.items() if s_.get('alive')}
+    m = min(len(h) for h in hists.values()) if hists else 0
+    equal = len({tuple(h[:m]) for h in hists.values()}) <= 1
+    return {'seed': seed, 'multi': True, 'bad_pieces': bad[:3], 'npieces': npieces, 'nexc': nexc, 'equal': equal,
+            'lens': {n: len(h) for n, h in hists.items()}}
+
+
+def _job_multi(seed):
+    try:
+        return run_multi(seed)
+    except Exception as e:
+        import traceback
+        return {'error': traceback.format_exc()[-500:], 'seed': seed}
+
+
+def run_case(B, target, journal, use_batch, shape, workdir=None, interrupt=0):
     from . import simcluster as sc
     import pysyncobj.pickle as P
     cfg = {'voters': ['a', 'b'], 'init_connected': True, 'batch': B, 'use_batch': use_batch}
@@ -50,6 +86,14 @@ def run_case(B, target, journal, use_batch, shape, workdir=None):
         if not labels:
             cl.step(('Tick', 'a', 'h', 100000))
             scan()
+        if interrupt and len(labels) > interrupt:
+            # the connection is lost after `interrupt` pieces have arrived; the entry is sent again from its first piece
+            for _ in range(interrupt):
+                if cl.applicable(('Deliver', 'a', 'b')):
+                    cl.step(('Deliver', 'a', 'b'))
+            for act in (('Break', 'a', 'b'), ('Notice', 'a', 'b'), ('Notice', 'b', 'a'), ('Connect', 'b', 'a'), ('Connect', 'a', 'b')):
+                if cl.applicable(act):
+                    cl.step(act)
         drain()
         for _ in range(4):
             cl.step(('Tick', 'a', 'h', 100000))
@@ -105,6 +149,12 @@ def gen_cases(tier, seed):
             cases.append((65536, t, True, True, None))
             if tier != 'quick' or t % 16 == 0:
                 cases.append((1000, t, True, False, None))
+    # transfers interrupted after 1, 2, ... pieces (connection lost, entry sent again from the start)
+    for B in (7, 64, 100):
+        for t in (2 * B + 5, 3 * B, 5 * B + 1):
+            for k in (1, 2, 3):
+                cases.append((B, max(24, t), False, True, None, None, k))
+                cases.append((B, max(24, t), True, False, None, None, k))
     for sh in SHAPES:
         for B in (50, 65536):
             cases.append((B, 0, False, True, sh))
@@ -155,6 +205,25 @@ def run(prop, tier, seed, out=print):
         errs = [r for r in res if 'error' in r]
         for r in errs[:3]:
             machinery.append('case failed in the harness: %s %s' % (r['error'], r['args']))
+        # large entries under leader changes (sender-side observation + equal replicas)
+        nmulti = 24 if tier == 'quick' else 400
+        with multiprocessing.Pool(max(1, tlc.NCPU - 2)) as pool:
+            mres = pool.map(_job_multi, [seed * 104729 + k for k in range(nmulti)], chunksize=2)
+        for r in [r for r in mres if 'error' in r][:3]:
+            machinery.append('large-entry run failed in the harness (seed %s): %s' % (r['seed'], r['error']))
+        mgood = [r for r in mres if 'error' not in r]
+        for r in mgood:
+            names = []
+            if r['bad_pieces']:
+                names.append('C11.PiecesAreTheEntry')
+            if not r['equal']:
+                names.append('C11.ExactlyOnceEqualArgs')
+            if r['nexc']:
+                names.append('C11.NoEscape')
+            if names:
+                viols.append(dict(names=names, case=['multi', r['seed']], rec=r))
+        out('  [code] %d runs with large entries under leader changes: %d entries sent in pieces observed at the wire, %d runs with a wrong piece stream / unequal replicas / escaped exception'
+            % (len(mgood), sum(r['npieces'] for r in mgood), sum(1 for v in viols if v['case'][0] == 'multi')))
         good = [(i, r) for i, r in enumerate(res) if 'error' not in r]
         per = max(1, (len(good) + 7) // 8)
         with concurrent.futures.ThreadPoolExecutor(max_workers=8) as ex:
